@@ -49,3 +49,37 @@ def alts(repo):
         out.append("  (%s, [%s])%s" % (L(fn), ", ".join("[" + ", ".join(L(x) for x in l) + "]" for l in lists), "," if i + 1 < len(rows) else ""))
     out += ["]", "", "end Gold.Gen", ""]
     return "\n".join(out), "; ".join("%s:%s" % (fn, "|".join("/".join(l) for l in lists)) for fn, lists in rows)
+
+
+TOKLIST = re.compile(r"\[\s*((?:exp_token\(\s*TokenType::\w+\s*\)\s*,?\s*)+)\]")
+
+
+@extract.item("E6b_TokenLists")
+def token_lists(repo):
+    """every array of `exp_token(TokenType::…)` alternatives / stop tokens of the parser, per function, in source order"""
+    rows = []
+    for f in ("parser/body_parser.rs", "parser/mod.rs"):
+        src = extract.strip_comments(extract.read(repo, f))
+        seen = set()
+        for m in re.finditer(r"\bfn\s+(\w+)", src):
+            fn = m.group(1)
+            if fn in seen:
+                continue
+            seen.add(fn)
+            try:
+                body = extract.fn_body(src, fn)
+            except Exception:
+                continue
+            lists = [re.findall(r"TokenType::(\w+)", l) for l in TOKLIST.findall(body)]
+            if lists:
+                rows.append((fn, lists))
+    if len(rows) < 20:
+        raise ValueError("only %d functions with token lists found: the source no longer has the shape this translator reads" % len(rows))
+    L = extract.lean_str
+    out = ["import GoldModel.Gen.E1_TokenKind", "namespace Gold.Gen", "",
+           "/-- (function, its arrays of `exp_token` alternatives / stop tokens in order of appearance) -/",
+           "def tokenLists : List (String × List (List Kind)) := ["]
+    for i, (fn, lists) in enumerate(rows):
+        out.append("  (%s, [%s])%s" % (L(fn), ", ".join("[" + ", ".join("Kind." + x for x in l) + "]" for l in lists), "," if i + 1 < len(rows) else ""))
+    out += ["]", "", "end Gold.Gen", ""]
+    return "\n".join(out), "%d functions, %d lists" % (len(rows), sum(len(l) for _, l in rows))
